@@ -11,6 +11,7 @@ from pyvc.stubs import np as snp
 from pyvc.stubs import pint as spint
 
 from . import arrays as A
+from . import c18
 from . import mapkit as K
 from . import native_map as NM
 
@@ -96,8 +97,18 @@ class MapRun:
         self.direction = direction
         self.kw = kw
         self.raised = None
+        self.abstract_basis = None
+        if direction == "vector":
+            # an arbitrary non-zero normal; the basis is VectorBasis(n=normal) by its contract (C18): orthonormal,
+            # right-handed, n parallel to the argument
+            nv = [core.fresh_real("normal_" + c) for c in "xyz"]
+            core.assume(SV(z3.Or(*[core.term(x) != 0 for x in nv]), "b"))
+            direction = osy.Vector(*nv)
+            del c18.CALLS[:]
         try:
             self.out = M(K.MAP).map(*self.layers, direction=direction, plot=False, **kw)
+            if self.direction == "vector":
+                self.abstract_basis = c18.CALLS[-1][1]
         except RuntimeError as e:
             self.raised = e
             return
@@ -135,6 +146,9 @@ class MapRun:
     def basis(self):
         if self.ndim < 3:
             return (1, 0, 0), (0, 1, 0), (0, 0, 0)
+        if self.abstract_basis is not None:
+            b = self.abstract_basis
+            return tuple(tuple(SV.lift(x) for x in c18.comps(w)) for w in (b.u, b.v, b.n))
         return AXES3[self.direction]
 
     def origin_comp(self, d):
@@ -212,7 +226,7 @@ _CASES = [
 ]
 
 
-def check_pixel(run, tag=""):
+def check_pixel(run, tag="", oblique=False):
     """the C03 clauses at an arbitrary pixel of a thin map (one scalar layer per entry of run.data)"""
     kc = run.kc
     prove(tag + "grid.shape", core.conj(SV.lift(kc.nz) == 1, SV.lift(kc.nx) == run.rx, SV.lift(kc.ny) == run.ry))
@@ -262,6 +276,10 @@ def check_pixel(run, tag=""):
     core.lemma(tag + "unmasked.hit_cell_contains_sample_point", [ax_hit] + run.unit_facts(), core.implies(h >= 0, run.contains(m_hit, q)))
     # completeness: an arbitrary loaded cell that contains the sample point keeps the pixel unmasked
     wf = window_facts(run, j, i, px, py, tag) if run.win is not None else []
+    if oblique:
+        complete_oblique(run, kc, j, i, q, px, py, wf, tag)
+        kernel_pre_oblique(run, kc, j, i, tag)
+        return j, i, px, py
     complete(run, kc, j, i, q, wf, 0, tag)
     if run.win is not None:
         kernel_pre(run, kc, 0, j, i, tag)
@@ -418,6 +436,233 @@ def map_thin(case):
     j, i, px, py = check_pixel(run)
     prove("returns.x_length", SV.lift(run.out.x.shape[0]) == run.rx)
     prove("returns.y_length", SV.lift(run.out.y.shape[0]) == run.ry)
+
+
+# ---- real-arithmetic lemmas used for oblique planes (proved once over arbitrary reals, instantiated at the call site) ----
+def dot(a, b):
+    t = SV.lift(0.0)
+    for x, y in zip(a, b):
+        t = t + SV.lift(x) * SV.lift(y)
+    return t
+
+
+def cs_instance(a, b):
+    """Cauchy-Schwarz: (a.b)^2 <= (a.a)(b.b)"""
+    return dot(a, b) * dot(a, b) <= dot(a, a) * dot(b, b)
+
+
+def sq_abs_instance(t, P):
+    """t^2 <= P^2 and P >= 0  =>  -P <= t <= P"""
+    return core.implies(core.conj(t * t <= P * P, P >= 0), core.conj(t <= P, -t <= P))
+
+
+def mul_mono_instance(x, X, y, Y):
+    return core.implies(core.conj(x >= 0, x <= X, y >= 0, y <= Y), x * y <= X * Y)
+
+
+@unit("C03", "lemma.real_arithmetic", targets=[], cases=[{"label": "cauchy_schwarz"}, {"label": "sq_abs"}, {"label": "mul_mono"}], replay=None)
+def real_lemmas(case):
+    if case["label"] == "cauchy_schwarz":
+        a = [core.fresh_real("a%d" % d) for d in range(3)]
+        b = [core.fresh_real("b%d" % d) for d in range(3)]
+        cr = [a[1] * b[2] - a[2] * b[1], a[2] * b[0] - a[0] * b[2], a[0] * b[1] - a[1] * b[0]]
+        prove("lagrange_identity", dot(a, a) * dot(b, b) - dot(a, b) * dot(a, b) == dot(cr, cr))
+        prove("cauchy_schwarz", cs_instance(a, b))
+    elif case["label"] == "sq_abs":
+        t, P = core.fresh_real("t"), core.fresh_real("P")
+        prove("sq_abs", sq_abs_instance(t, P))
+    else:
+        x, X, y, Y = [core.fresh_real(k) for k in ("x", "X", "y", "Y")]
+        prove("mul_mono", mul_mono_instance(x, X, y, Y))
+
+
+def use(fact, note):
+    core.cur().add(core.bterm(fact))
+    core.note(note)
+    return fact
+
+
+def kernel_pre_oblique(run, kc, j, i, tag=""):
+    """the kernel's precondition at the call site for an arbitrary orthonormal basis: pixel centres projected on u, v
+    sit on the kernel's grid; a cell passing the test is within half-diagonal of the pixel along u and v
+    (Cauchy-Schwarz); the plane itself for the depth axis"""
+    kw = kc.kw
+    note = "instances of C03.lemma.real_arithmetic / lemma.footprint_axis asserted for the kernel precondition"
+    n = core.fresh_int("cell_any", 0)
+    core.assume(n < kc.ncells)
+    u, v, nn = run.basis()
+    ortho = [dot(u, u) == 1, dot(v, v) == 1, dot(nn, nn) == 1, dot(u, v) == 0, dot(u, nn) == 0, dot(v, nn) == 0]
+    snp.reveal_linspace(i)
+    snp.reveal_linspace(j)
+    gp = [SV.lift(kc.gp.elem((0, j, i, d))) for d in range(3)]
+    og = [SV.lift(kc.orig[d].elem((n,))) for d in range(3)]
+    size = SV.lift(kw["cell_sizes"].elem((n,)))
+    r3 = core.sqrt(3)
+    half = size * r3
+    delta = [gp[d] - og[d] for d in range(3)]
+    passes = kc.contains(n, 0, j, i)
+    inst = []
+    facts = []
+    # the pixel centre in the kernel's length unit (the window width): gp_d = Xk u_d + Yk v_d
+    Wk = SV.lift(run.win.magnitude)
+    Xk, Yk = SV.lift(run.out.x.elem((i,))) / Wk, SV.lift(run.out.y.elem((j,))) / Wk
+    P = []
+    for d in range(3):
+        Pd = gp[d] == Xk * u[d] + Yk * v[d]
+        core.lemma(tag + "kernel_pre.oblique.pixel_position[%d]" % d, run.unit_facts(), Pd)
+        P.append(Pd)
+    for cname, axis, other, idx in (("x", u, v, i), ("y", v, u, j)):
+        lo, sp = SV.lift(kw["grid_lower_edge_in_new_basis_" + cname]), SV.lift(kw["grid_spacing_in_new_basis_" + cname])
+        centre = SV.lift(kw["cell_positions_in_new_basis_" + cname].elem((n,)))
+        g = dot(gp, axis)
+        # gp = (x_i u + y_j v + 0 n)/dx  =>  gp.axis = x_i/dx (orthonormality), which is a point of the kernel's grid
+        own = Xk if cname == "x" else Yk
+        Q = g == Xk * dot(u, axis) + Yk * dot(v, axis)
+        core.lemma(tag + "kernel_pre.oblique.projection_expansion." + cname, P, Q)
+        R = g == own
+        core.lemma(tag + "kernel_pre.oblique.projection." + cname, [Q] + ortho, R)
+        S = core.conj(own == lo + (SV.lift(idx) + 0.5) * sp, sp > 0)
+        core.lemma(tag + "kernel_pre.oblique.pixel_coordinate_on_grid." + cname, run.unit_facts() + run.extent_facts(), S)
+        on_grid = core.conj(g == lo + (SV.lift(idx) + 0.5) * sp, sp > 0)
+        core.lemma(tag + "kernel_pre.oblique.pixel_on_kernel_grid." + cname, [R, S], on_grid)
+        proj = centre == dot(og, axis)
+        prove(tag + "kernel_pre.oblique.projected_centre." + cname, proj)
+        # |delta.axis| <= |delta| <= size*sqrt3 when every |delta_d| <= size
+        dd = dot(delta, delta) <= half * half
+        core.lemma(tag + "kernel_pre.oblique.offset_norm_bound." + cname, [passes, size >= 0] + core.sqrt_axioms(), dd) if False else None
+        cs = use(cs_instance(delta, axis), note)
+        t = dot(delta, axis)
+        sa = use(sq_abs_instance(t, half), note)
+        fa = use(footprint_axis(g, lo, sp, idx, centre, half, half), note)
+        inst += [cs, sa, fa]
+        facts += [on_grid, proj]
+    # depth axis of a thin map: the plane itself
+    lo, sp = SV.lift(kw["grid_lower_edge_in_new_basis_z"]), SV.lift(kw["grid_spacing_in_new_basis_z"])
+    gz = dot(gp, nn)
+    zfact = core.conj(gz == 0, lo == 0, sp > 0)
+    core.lemma(tag + "kernel_pre.oblique.pixel_on_kernel_grid.z", ortho + run.unit_facts() + run.extent_facts(), zfact)
+    projz = SV.lift(kw["cell_positions_in_new_basis_z"].elem((n,))) == dot(og, nn)
+    prove(tag + "kernel_pre.oblique.projected_centre.z", projz)
+    csz = use(cs_instance(delta, nn), note)
+    saz = use(sq_abs_instance(dot(delta, nn), half), note)
+    # under the containment test: every |delta_d| <= size, hence |delta|^2 <= 3 size^2 = half^2
+    goal = footprint_pre(kw, n, (0, j, i), 3)
+    dd = core.implies(passes, core.conj(dot(delta, delta) <= half * half, size >= 0))
+    core.lemma(tag + "kernel_pre.oblique.offset_norm_bound", core.sqrt_axioms(), dd)
+    core.lemma(tag + "kernel_pre.footprint", facts + inst + [zfact, projz, csz, saz, dd] + ortho[:3] + core.sqrt_axioms(), goal)
+
+
+def complete_oblique(run, kc, j, i, q, px, py, win_facts, tag=""):
+    """completeness for an arbitrary orthonormal basis: the pre-selection bounds follow from Cauchy-Schwarz and the
+    triangle inequality, spelled out as instances of the three real-arithmetic lemmas"""
+    u, v, nn = run.basis()
+    b_ = run.abstract_basis
+    m = core.fresh_int("m", 0)
+    core.assume(m < run.n)
+    c, sz = run.cell(m)
+    core.assume(sz > 0)
+    inside = []
+    for d in range(3):
+        inside += [q[d] - c[d] <= sz / 2, c[d] - q[d] <= sz / 2]
+    for a in inside:
+        core.assume(a)
+    ortho = [dot(u, u) == 1, dot(v, v) == 1, dot(nn, nn) == 1, dot(u, v) == 0, dot(u, nn) == 0, dot(v, nn) == 0]
+    for k, f in enumerate(ortho):
+        prove(tag + "basis.orthonormal[%d]" % k, f)  # from the contract of VectorBasis (normal is non-zero)
+    a = [c[d] - q[d] for d in range(3)]
+    r3 = core.sqrt(3)
+    A = r3 * sz / 2
+    note = "instances of C03.lemma.real_arithmetic asserted for the pre-selection bounds"
+    # |a|^2 <= 3 (s/2)^2
+    aa = core.lemma(tag + "oblique.offset_norm_bound", inside + [sz > 0] + core.sqrt_axioms(), dot(a, a) <= A * A)
+    cs_an = use(cs_instance(a, nn), note)
+    t = dot(a, nn)
+    sa = use(sq_abs_instance(t, A), note)
+    bound0 = core.conj(t <= A, -t <= A)
+    core.lemma(tag + "oblique.normal_offset_bound", [dot(a, a) <= A * A, cs_an, sa, dot(nn, nn) == 1, sz > 0] + core.sqrt_axioms(), bound0)
+    # stage 0: |(c - o).n| = |a.n + (q - o).n| = |a.n|
+    mask0, count0, sel0 = run.chain[0]
+    keep0 = SV.lift(snp._to_bool(mask0.elem((m,))))
+    core.lemma(tag + "preselect0.keeps_containing_cell", [bound0, dot(u, nn) == 0, dot(v, nn) == 0] + core.sqrt_axioms(), keep0)
+    core.assume(keep0)
+    r1 = sel0.rank(m)
+    ax0 = sel0.rank.axiom
+    in_range0 = (SV.lift(m) >= 0) & (SV.lift(m) < run.n)
+    sel_r = SV.lift(sel0(r1))
+    fact0 = core.conj(sel_r == m, r1 >= 0, r1 < count0)
+    core.lemma(tag + "preselect0.selected_row_is_cell", [ax0, in_range0, keep0], fact0)
+    index_facts = [sel_r == SV.lift(m), SV.lift(r1) >= 0, SV.lift(r1) < SV.lift(count0)]
+    # stage 1: |c - o| <= |c - q| + |q - o| <= (sqrt3/2) s + 0.6 sqrt3 max(window)
+    X, Y = SV.lift(px), SV.lift(py)
+    W = SV.lift(run.win.magnitude)
+    Wy = SV.lift(run.win_y.magnitude) if hasattr(run, "win_y") else W
+    M = core.ite(W > Wy, W, Wy)
+    c06 = SV.lift(0.6)  # the code's constant (a double, slightly below 3/5)
+    B = M * c06 * r3
+    b = [X * u[d] + Y * v[d] for d in range(3)]
+    bb_eq = dot(b, b) == X * X + Y * Y
+    expand = dot(b, b) == X * X * dot(u, u) + 2 * X * Y * dot(u, v) + Y * Y * dot(v, v)
+    core.lemma(tag + "oblique.inplane_norm.expansion", [], expand)  # a polynomial identity
+    core.lemma(tag + "oblique.inplane_norm", [expand] + ortho[:2] + [ortho[3]], bb_eq)
+    inx, iny = win_facts[0], win_facts[1]
+    sqx = core.lemma(tag + "oblique.x_square_bound", [inx, W > 0], X * X <= (W / 2) * (W / 2))
+    sqy = core.lemma(tag + "oblique.y_square_bound", [iny, Wy > 0], Y * Y <= (Wy / 2) * (Wy / 2))
+    win_sq = (W / 2) * (W / 2) + (Wy / 2) * (Wy / 2) <= B * B
+    core.lemma(tag + "oblique.window_bound", [W > 0, Wy > 0] + core.sqrt_axioms(), win_sq)
+    bb = dot(b, b) <= B * B
+    core.lemma(tag + "oblique.inplane_bound", [bb_eq, X * X <= (W / 2) * (W / 2), Y * Y <= (Wy / 2) * (Wy / 2), win_sq], bb)
+    cs_ab = use(cs_instance(a, b), note)
+    mm = use(mul_mono_instance(dot(a, a), A * A, dot(b, b), B * B), note)
+    tab = dot(a, b)
+    sab = use(sq_abs_instance(tab, A * B), note)
+    nonneg = core.conj(dot(a, a) >= 0, dot(b, b) >= 0, A >= 0, B >= 0)
+    core.lemma(tag + "oblique.nonneg", [sz > 0, W > 0, Wy > 0] + core.sqrt_axioms(), nonneg)
+    ab_bound = tab <= A * B
+    core.lemma(tag + "oblique.cross_term_bound", [cs_ab, mm, sab, nonneg, dot(a, a) <= A * A, bb], ab_bound)
+    e = [c[d] - run.origin_comp(d) for d in range(3)]
+    ee_eq = dot(e, e) == dot(a, a) + 2 * tab + dot(b, b)
+    prove(tag + "oblique.offset_decomposition", ee_eq)
+    ee_bound = dot(e, e) <= (A + B) * (A + B)
+    core.lemma(tag + "oblique.centre_distance_square_bound", [ee_eq, dot(a, a) <= A * A, ab_bound, bb], ee_bound)
+    N = core.sqrt(dot(e, e))
+    sN = use(sq_abs_instance(N, A + B), note)
+    n_bound = N <= A + B
+    core.lemma(tag + "oblique.centre_distance_bound", [ee_bound, sN, nonneg] + core.sqrt_axioms(), n_bound)
+    mask1, count1, sel1 = run.chain[1]
+    keep1 = SV.lift(snp._to_bool(mask1.elem((r1,))))
+    core.lemma(tag + "preselect1.keeps_containing_cell", [n_bound] + index_facts + run.unit_facts() + core.sqrt_axioms(), keep1)
+    core.assume(keep1)
+    r2 = sel1.rank(r1)
+    ax1 = sel1.rank.axiom
+    in_range1 = (SV.lift(r1) >= 0) & (SV.lift(r1) < SV.lift(count0))
+    sel_r1 = SV.lift(sel1(r2))
+    fact1 = core.conj(sel_r1 == r1, r2 >= 0, r2 < count1)
+    core.lemma(tag + "preselect1.selected_row_is_cell", [ax1, in_range1, keep1], fact1)
+    index_facts += [sel_r1 == SV.lift(r1), SV.lift(r2) >= 0, SV.lift(r2) < SV.lift(count1)]
+    sig = run.sigma(r2)
+    core.lemma(tag + "containing_cell.kernel_row", index_facts, sig == m)
+    ax_last = K.last_elim(kc, r2, 0, j, i)
+    passes = kc.contains(r2, 0, j, i)
+    core.lemma(tag + "containing_cell.passes_kernel_test", inside + [sz > 0, sig == m] + run.unit_facts(), passes)
+    h = kc.last(0, j, i)
+    rng = core.conj(SV.lift(r2) >= 0, SV.lift(r2) < SV.lift(kc.ncells))
+    core.lemma(tag + "containing_cell.row_in_kernel_range", index_facts + [SV.lift(kc.ncells) == SV.lift(run.nsel)], rng)
+    core.lemma(tag + "containing_cell.pixel_not_masked", [ax_last, passes, rng], h >= 0)
+    return m
+
+
+@unit("C03", "map.thin.oblique", targets=[K.MAP + ":map", "osyris.plot.direction:get_direction"],
+      uses=["evaluate_on_grid@map", "VectorBasis@direction"],
+      cases=[{"label": "3d,normal_vector,dx_same_unit,res_int", "ndim": 3, "direction": "vector", "window": "same_unit", "resolution": "int"}],
+      replay=NM.replay_c03, max_paths=64)
+def map_oblique(case):
+    """arbitrary normal vector: the basis is VectorBasis(n=normal) by its contract (orthonormal, C18)"""
+    run = MapRun(ndim=3, direction="vector", window=case["window"], resolution=case["resolution"])
+    if run.raised is not None:
+        core.cover("raised_no_cells")
+        return
+    core.cover("mapped")
+    check_pixel(run, oblique=True)
 
 
 def run_first_mask():
